@@ -326,6 +326,49 @@ def rule_gil(fx, out):
         out.append(('R20.gil', 'gil-region:%s' % sname(f), VIOLATED if bad else HOLDS, 'after PY_IMATH_LEAVE_PYTHON the function reaches %s' % bad[1] if bad else 'no Python API use while the GIL is released', bad[0] if bad else f['loc']))
     return n
 
+def rule_shared(fx, out):
+    """R20.shared: nothing reachable from a Task::execute override writes an object with static storage duration (a global,
+    a static member, a function-local static): sub-ranges run concurrently on worker threads, so such a write is a data race
+    and makes an element's result depend on what the other threads are doing.  (Initialisation of a `static const` local is
+    done once by the language under a guard and is not a write in this sense.)"""
+    n = 0
+    def closure(rootkey):
+        q = deque([(rootkey, [])]); seen = {rootkey}
+        while q:
+            k, path = q.popleft()
+            for g in fx.by_key.get(k, [])[:2]:
+                for e in g.events:
+                    if e['k'] == 'staticw' and e['how'].startswith('write'):
+                        return path + [(sname(g), e['loc'], '%s %s (%s)' % ('function-local static' if e.get('local') else 'static', e['name'].split('::')[-1], e['type']))]
+                for e in g.events:
+                    if e['k'] == 'call':
+                        tg = [e['key']] if e.get('key') else []
+                        if e.get('virtual') and e.get('key'): tg += list(fx.overriders(e['key']))
+                        for t in tg:
+                            if t not in seen and t in fx.by_key: seen.add(t); q.append((t, path + [(sname(g), e['loc'], e['name'].split('::')[-1])]))
+                    elif e['k'] == 'construct' and e.get('ctorKey') in fx.by_key and e['ctorKey'] not in seen:
+                        seen.add(e['ctorKey']); q.append((e['ctorKey'], path + [(sname(g), e['loc'], 'constructs ' + e['cls'])]))
+            if len(seen) > 5000: break
+        return None
+    seen = set()
+    # the per-element functors (static apply of the op structs) are what the vectorised execute() bodies call through their Op
+    # template parameter; only a sample of those instantiations is analysed, so every functor is a root of its own
+    for f in fx.fns:
+        if f.name.split('::')[-1] == 'apply' and f.get('static') and f.get('cls') and f.key not in seen:
+            seen.add(f.key); n += 1
+            p = closure(f.key)
+            out.append(('R20.shared', 'shared:%s::apply' % f.get('cls'), HOLDS if p is None else VIOLATED,
+                        'nothing reachable writes an object with static storage duration' if p is None else
+                        'the per-element functor runs concurrently on worker threads but reaches a write of the ' + ' -> '.join('%s (%s)' % (a, c) for a, b, c in p) + ': a data race, and the value one element sees depends on the other threads', f['loc'] if p is None else p[-1][1]))
+    for f in fx.fns:
+        if f.get('cls_task') and f.name.split('::')[-1] == 'execute' and f.key not in seen:
+            seen.add(f.key); n += 1
+            p = closure(f.key)
+            out.append(('R20.shared', 'shared:%s::execute/%d' % (f.get('cls'), len(f['params'])), HOLDS if p is None else VIOLATED,
+                        'nothing reachable writes an object with static storage duration' if p is None else
+                        'execute() runs concurrently on worker threads but reaches a write of the ' + ' -> '.join('%s (%s)' % (a, c) for a, b, c in p) + ': a data race, and the value one element sees depends on the other threads', f['loc'] if p is None else p[-1][1]))
+    return n
+
 OPFILES = ('PyImathOperators.h', 'PyImathVecOperators.h', 'PyImathQuatOperators.h', 'PyImathMatrix44.cpp')
 def _b(op, a='P0', b='P1'): return 'R(B(%s,%s,%s))' % (op, a, b)
 # the repository's own naming: functor -> the one C++ operation of the element type it forwards to (structure of the body as
@@ -445,7 +488,7 @@ def rule_unmasked(fx, out):
                         'on the branch %s the task %s indexes the argument with the position in the masked view; the argument has the unmasked length, so element k must be taken at raw_ptr_index(k)' % (C, e['cls']), e['loc']))
     return n
 
-RULES = [('range', rule_range_index), ('len', rule_len), ('wr', rule_wr), ('gil', rule_gil), ('ops', rule_ops), ('loops', rule_loops), ('unmasked', rule_unmasked)]
+RULES = [('range', rule_range_index), ('len', rule_len), ('wr', rule_wr), ('gil', rule_gil), ('shared', rule_shared), ('ops', rule_ops), ('loops', rule_loops), ('unmasked', rule_unmasked)]
 
 def main(rep, ws, tier):
     repo = build.REPO
@@ -455,7 +498,7 @@ def main(rep, ws, tier):
     for name, fnc in RULES: fnc(pos, pout)
     fired = set(r for r, oid, st, det, w in pout if st == VIOLATED)
     quiet = set(r for r, oid, st, det, w in pout if st == HOLDS)
-    need = {'R20.range', 'R20.index', 'R20.len', 'R20.gil'}
+    need = {'R20.range', 'R20.index', 'R20.len', 'R20.gil', 'R20.shared'}
     if need - fired: rep.fail_incomplete('positive examples (selftest/pyrules_pos.cpp) no longer fire for %s' % sorted(need - fired))
     if need - quiet: rep.fail_incomplete('negative examples (selftest/pyrules_pos.cpp) no longer pass for %s' % sorted(need - quiet))
     rep.extra['positive_examples'] = {'fired': sorted(fired), 'quiet': sorted(quiet)}
@@ -467,6 +510,7 @@ def main(rep, ws, tier):
     rep.floor('dispatchTask sites + length helpers', counts['len'], 60)
     rep.floor('vectorised apply functions', counts['wr'], 8)
     rep.floor('GIL obligations', counts['gil'], 40)
+    rep.floor('execute overrides and element functors checked for shared static state', counts['shared'], 100)
     rep.floor('operator functors', counts['ops'], 30)
     rep.floor('unmasked-length branches', counts['unmasked'], 2)
     rep.floor('hand-written element loops', counts['loops'], 30)
